@@ -257,6 +257,20 @@ pub enum AnnotationDepth {
     Max,
 }
 
+impl AnnotationDepth {
+    /// The STAMQL serialisation of the depth (follows the qualifier in a constraint)
+    fn as_querystr(&self) -> Result<&'static str, StamError> {
+        match self {
+            Self::One => Ok(" "),
+            Self::Max => Ok(" RECURSIVE"),
+            Self::Zero => Err(StamError::QuerySyntaxError(
+                "There is no query syntax for AnnotationDepth::Zero".to_string(),
+                "Constraint::to_string()",
+            )),
+        }
+    }
+}
+
 impl Default for AnnotationDepth {
     fn default() -> Self {
         Self::One
@@ -746,11 +760,7 @@ impl<'a> Constraint<'a> {
                 s += &format!(
                     "ANNOTATION{}{} ?{}",
                     qualifier.as_str(),
-                    if depth == &AnnotationDepth::Max {
-                        " RECURSIVE"
-                    } else {
-                        " "
-                    },
+                    depth.as_querystr()?,
                     varname
                 );
                 if let Some(offset) = offset {
@@ -781,11 +791,7 @@ impl<'a> Constraint<'a> {
                 s += &format!(
                     "ANNOTATION{}{} \"{}\"",
                     qualifier.as_str(),
-                    if depth == &AnnotationDepth::Max {
-                        " RECURSIVE"
-                    } else {
-                        " "
-                    },
+                    depth.as_querystr()?,
                     id
                 );
                 if let Some(offset) = offset {
@@ -854,11 +860,7 @@ impl<'a> Constraint<'a> {
                     s += &format!(
                         "ANNOTATION{}{} \"{}\"",
                         qualifier.as_str(),
-                        if depth == &AnnotationDepth::Max {
-                            " RECURSIVE"
-                        } else {
-                            " "
-                        },
+                        depth.as_querystr()?,
                         id
                     );
                     if i < handles.len() - 1 {
